@@ -12,8 +12,9 @@
 (*            hasidx: the file exists (the first manifestPut creates it;    *)
 (*            a BlobPut only creates oci-layout)                            *)
 (*   modRefs  OCIDir.modRefs: gcKey(r) -> ociGC{mod, locks} (ex = key       *)
-(*            present); gcKey normalizes the path (NormKeys; the literal    *)
-(*            r.Path of the tree as found is kept as a switch)              *)
+(*            present); gcKey normalizes the path (KeyMode "clean"; the     *)
+(*            literal r.Path of the tree as found and a symlink resolving   *)
+(*            variant are kept as switches for expected counterexamples)    *)
 (*   per ImageCopy call c (image.go): cst (idle / run / fail / ok / err),   *)
 (*   act (running imageCopyOpt instances), need (looked up in the layout,   *)
 (*   not there: to be fetched from the source), hit (what the target tag    *)
@@ -83,8 +84,12 @@ CONSTANTS Copies,     \* ids of the ImageCopy calls, e.g. {"c1", "c2"}
           Confs,      \* configurations to explore (LayoutGCMC)
           MaxCloses,  \* number of rc.Close calls
           MaxOps,     \* number of other events (deletes, pushes, a failing source request)
-          NormKeys,   \* TRUE: modRefs is keyed by the normalized path (ocidir.go:gcKey, fix 333d01d);
-                      \* FALSE: by the literal r.Path, as found (finding C08-1)
+          KeyMode,    \* how modRefs is keyed (ocidir.go:gcKey):
+                      \*  "clean"    filepath.Clean + Abs (fix 333d01d, the code as it is)
+                      \*  "literal"  the literal r.Path, as found (finding C08-1)
+                      \*  "symlinks" Clean + Abs + EvalSymlinks, keeping the unresolved key while the
+                      \*             layout does not exist yet (seeded change C08-3)
+                      \* the last two exist for expected-counterexample configurations only
           Eager       \* TRUE: steps of a copy that wait for nothing run before anything else
                       \* (hand-made partial order reduction for the graph-shape configurations;
                       \* the lock configurations are explored with every interleaving)
@@ -124,8 +129,18 @@ TmpNames == {Tmp(c, b) : c \in Copies, b \in Nodes} \cup {"tmp-bad", "tmp-plant"
 IsTmp(x) == x \in TmpNames
 \* ocidir.go:gcKey: filepath.Clean + Abs; the spellings used here are the path ("p") and the path
 \* with a trailing slash ("p/")
-GcKey(k) == IF NormKeys THEN (IF k = "p/" THEN "p" ELSE k) ELSE k
-Keys == {GcKey(k) : k \in {conf.cp[c].key : c \in Copies} \cup conf.ckeys \cup {conf.okey}}
+\* the layout directory exists (conf.fresh: it does not when the history starts; the first BlobPut
+\* or ManifestPut creates it, nothing removes index.json or the last file without an index)
+Exists == ~conf.fresh \/ hasidx \/ files # {}
+\* spellings: "p" the real path, "p/" with a trailing slash, "l" through a symbolic link
+Norm(k) == IF k = "p/" THEN "p" ELSE k
+Resolve(k) == IF k = "l" THEN "p" ELSE Norm(k)
+KeyIf(k, ex) == CASE KeyMode = "literal" -> k
+                  [] KeyMode = "clean" -> Norm(k)
+                  [] KeyMode = "symlinks" -> IF ex THEN Resolve(k) ELSE Norm(k)
+GcKey(k) == KeyIf(k, Exists)      \* GCLock, GCUnlock, Close: the directory as it is now
+KeyW(k) == KeyIf(k, TRUE)         \* refMod: always called after a write, the directory exists
+Keys == UNION {{k, Norm(k), Resolve(k)} : k \in {conf.cp[c].key : c \in Copies} \cup conf.ckeys \cup {conf.okey}}
 
 -----------------------------------------------------------------------------
 (* Statement level reachability and the code's mark phase.                  *)
@@ -270,7 +285,7 @@ CopyBlobCommit(c, b) ==
   /\ tmpf' = [tmpf EXCEPT ![c] = @ \ {b}]
   /\ IF Tmp(c, b) \in files
      THEN /\ files' = (files \ {Tmp(c, b)}) \cup {b}
-          /\ modRefs' = RefMod(modRefs, GcKey(CP(c).key))
+          /\ modRefs' = RefMod(modRefs, KeyW(CP(c).key))
           /\ fin' = [fin EXCEPT ![c] = @ \cup {b}]
           /\ cst' = cst
      ELSE /\ cst' = [cst EXCEPT ![c] = "fail"]          \* rename: no such file
@@ -293,7 +308,7 @@ CopyPutManifest(c, n) ==
      /\ idx' = r.idx
      /\ cst' = IF r.ok THEN cst ELSE [cst EXCEPT ![c] = "fail"]
   /\ hasidx' = TRUE
-  /\ modRefs' = RefMod(modRefs, GcKey(CP(c).key))
+  /\ modRefs' = RefMod(modRefs, KeyW(CP(c).key))
   /\ act' = [act EXCEPT ![c] = @ \ {n}]
   /\ fin' = [fin EXCEPT ![c] = @ \cup {n}]
   /\ UNCHANGED <<conf, need, hit, got, tmpf, rl, closes, ops>>
@@ -328,7 +343,7 @@ CopyFailDrain(c, b) ==
   /\ tmpf' = [tmpf EXCEPT ![c] = @ \ {b}]
   /\ IF Tmp(c, b) \in files
      THEN /\ files' = (files \ {Tmp(c, b)}) \cup {b}
-          /\ modRefs' = RefMod(modRefs, GcKey(CP(c).key))
+          /\ modRefs' = RefMod(modRefs, KeyW(CP(c).key))
      ELSE UNCHANGED <<files, modRefs>>
   /\ UNCHANGED <<conf, idx, hasidx, cst, act, need, hit, got, fin, rl, closes, ops>>
 
@@ -351,7 +366,7 @@ CopyVars == <<cst, act, need, hit, got, tmpf, fin, rl>>
 TagDelete(t) ==
   /\ Op /\ t # "" /\ t \in conf.tdels /\ hasidx /\ \E e \in idx : e[1] = t
   /\ idx' = {e \in idx : e[1] # t}
-  /\ modRefs' = RefMod(modRefs, GcKey(conf.okey))
+  /\ modRefs' = RefMod(modRefs, KeyW(conf.okey))
   /\ UNCHANGED <<conf, files, hasidx, CopyVars, closes>>
 
 ManifestDelete(n) ==
@@ -359,7 +374,7 @@ ManifestDelete(n) ==
   /\ LET r == IF Cat[n].subj = "" THEN [ok |-> FALSE, files |-> files, idx |-> idx] ELSE RefDel(files, idx, n) IN
      /\ idx' = {e \in r.idx : e[2] # n}
      /\ files' = r.files \ {n}
-  /\ modRefs' = RefMod(modRefs, GcKey(conf.okey))
+  /\ modRefs' = RefMod(modRefs, KeyW(conf.okey))
   /\ UNCHANGED <<conf, hasidx, CopyVars, closes>>
 
 \* p = <<from tag, to tag>>: the manifest file is rewritten with the same content, the new tag
@@ -370,13 +385,13 @@ Retag(p) ==
   /\ LET r == ManPut(files, idx, TagAt(idx, p[1]), p[2], FALSE) IN
      /\ files' = r.files
      /\ idx' = r.idx
-  /\ modRefs' = GCUnlock(RefMod(GCLock(modRefs, GcKey(conf.okey)), GcKey(conf.okey)), GcKey(conf.okey))
+  /\ modRefs' = GCUnlock(RefMod(GCLock(modRefs, GcKey(conf.okey)), KeyW(conf.okey)), GcKey(conf.okey))
   /\ UNCHANGED <<conf, hasidx, CopyVars, closes>>
 
 PushBlob(b) ==
   /\ Op /\ b \in conf.pblobs
   /\ files' = files \cup {b}
-  /\ modRefs' = RefMod(modRefs, GcKey(conf.okey))
+  /\ modRefs' = RefMod(modRefs, KeyW(conf.okey))
   /\ UNCHANGED <<conf, idx, hasidx, CopyVars, closes>>
 
 PushBlobBad ==
@@ -391,7 +406,7 @@ PushManifest(p) ==
      /\ files' = r.files
      /\ idx' = r.idx
   /\ hasidx' = TRUE
-  /\ modRefs' = RefMod(modRefs, GcKey(conf.okey))
+  /\ modRefs' = RefMod(modRefs, KeyW(conf.okey))
   /\ UNCHANGED <<conf, CopyVars, closes>>
 
 -----------------------------------------------------------------------------
